@@ -173,7 +173,7 @@ def rule_cover(ctx):
     ctx.ob("FileSet.find_closest.cover", ok, fact, "the first file whose closed coverage contains t is returned, indexing the list the coverages came from", node=lp, func=f)
     # precedes the distance computation
     am = calls_in(f.node, "argmin")
-    okp = bool(am) and lp.lineno < am[0].lineno and all(flow.cfg.dominated_by(n, set(flow.cfg.nodes(lp))) for n in flow.cfg.nodes(enclosing_stmt(am[0])))
+    okp = bool(am) and all(flow.cfg.dominated_by(n, set(flow.cfg.nodes(lp))) for n in flow.cfg.nodes(enclosing_stmt(am[0])))
     ctx.ob("FileSet.find_closest.cover.first", okp, "cover loop precedes the nearest-file computation: %s" % okp, "covering file first, nearest file only otherwise",
            node=am[0] if am else f.node, func=f)
 
